@@ -1344,6 +1344,15 @@ func rule0112(r *core.Run, prop string) {
 						}
 					}
 				})
+				// a predicate of the error whose verdict is branched on is a test, not a hand-over
+				for t := range tests {
+					cs := r.P.SliceOf(t.(*ssa.If).Cond, core.SliceOpts{Depth: -1})
+					for u := range uses {
+						if uv, ok := u.(ssa.Value); ok && cs.HasValue(uv) {
+							delete(uses, u)
+						}
+					}
+				}
 				propagates := func(ret *ssa.Return) bool {
 					if ev, ok := fnRet[ret]; ok && ev != nil {
 						return involves(ev)
@@ -1364,9 +1373,31 @@ func rule0112(r *core.Run, prop string) {
 					if ev := fnRet[ret]; ev != nil && core.NilnessAt(core.BlockLocalLoad(ev), ret.Block()) == core.NonNil {
 						continue // another failure is reported on this path
 					}
-					if core.ReachesAvoiding(c, ret, func(x ssa.Instruction) bool { return tests[x] || uses[x] }) {
-						bad = "reaches the return at " + pos(r, ret) + " without having been tested, handed back or passed on"
-						continue
+					// (1) a nil test (either side), the recognising side of a specific test (err == X,
+					// os.IsNotExist(err)), an opaque test (type assertion), or a use must lie on every path
+					{
+						blocked1 := map[core.Edge]bool{}
+						stop := map[ssa.Instruction]bool{}
+						for t := range tests {
+							iff := t.(*ssa.If)
+							isNilT := false
+							for a := range al {
+								if _, ok := core.ErrNilFact(core.Guard{If: iff, Branch: true}, a); ok {
+									isNilT = true
+								}
+							}
+							if isNilT {
+								stop[t] = true
+							} else if side, ok := recognisedSide(r, iff.Cond, derived); ok && len(iff.Block().Succs) == 2 {
+								blocked1[core.Edge{From: iff.Block().Index, To: iff.Block().Succs[side].Index}] = true
+							} else {
+								stop[t] = true
+							}
+						}
+						if core.ReachesAvoidingEdges(c, ret, func(x ssa.Instruction) bool { return stop[x] || uses[x] }, blocked1) {
+							bad = "reaches the return at " + pos(r, ret) + " without a nil test of it, without having been recognised as a specific error, handed back or passed on"
+							continue
+						}
 					}
 					if !returnsErr || verdictCalls[name] || probeCalls[name] {
 						continue
@@ -1432,9 +1463,15 @@ func rule0112(r *core.Run, prop string) {
 								targets = append(targets, pb.Instrs[len(pb.Instrs)-1])
 							}
 						}
+						// walk from the test itself along its non-nil edge only, so that what is known on
+						// that edge (a flag merged right behind it) is kept
+						succs := iff.Block().Succs
+						if succs[0] != succs[1] {
+							blockedEdges[core.Edge{From: iff.Block().Index, To: succs[1-nonNil].Index}] = true
+						}
 						reached := false
 						for _, tg := range targets {
-							if first == tg || core.ReachesAvoidingEdges(first, tg, avoid, blockedEdges) {
+							if core.ReachesAvoidingEdges(iff, tg, avoid, blockedEdges) {
 								reached = true
 							}
 						}
